@@ -168,6 +168,12 @@ def gen_catalog(rng, rich=True):
     return Cat(ints, pns, pm, dns)
 
 
+def safe_upper(name):
+    """upper-case spelling that `str.lower` maps back to the same string (plain `.upper()` on ASCII names; `ß`, ligatures,
+    final sigma … stay as they are)"""
+    return ''.join(ch.upper() if len(ch.upper()) == 1 and ch.upper().lower() == ch.lower() and ch.upper() != 'Σ' else ch for ch in name)
+
+
 def variants(cat):
     """catalog representations that must not change routing (names<->dicts, case, list<->legacy, None<->[])"""
     out = []
@@ -176,7 +182,7 @@ def variants(cat):
                                         cat.pns, cat.pm, cat.dns, cat.extras)))
         out.append(('dicts->names', Cat([('n', it[1]) if it[0] == 'd' and it[2] == 'data' and it[3] is None else it
                                          for it in cat.ints], cat.pns, cat.pm, cat.dns, cat.extras)))
-        out.append(('upper', Cat([(it[0], it[1].upper()) + tuple(it[2:]) for it in cat.ints], cat.pns, cat.pm, cat.dns, cat.extras)))
+        out.append(('upper', Cat([(it[0], safe_upper(it[1])) + tuple(it[2:]) for it in cat.ints], cat.pns, cat.pm, cat.dns, cat.extras)))
         if cat.ints == []:
             out.append(('[]->None', Cat(None, cat.pns, cat.pm, cat.dns, cat.extras)))
     if cat.pm is not None and all('.' not in n for n, _ in cat.pm[1]) and len({n for n, _ in cat.pm[1]}) == len(cat.pm[1]):
@@ -1285,3 +1291,333 @@ class Variants:
             return False, None, 'the planner follows an OLDER model variant (%s); vs the live model: %s' % (
                 name(ok[0]), json.dumps(self.miss[self.LIVE], default=str)[:700])
         return False, None, '; '.join('%s: %s' % (name(c), json.dumps(self.miss[c], default=str)[:500]) for c in self.COMBOS)
+
+
+# ====================================================================== round 6
+# (a) sub-queries on another integration / on a model nested at every expression position x every pushdown site,
+# (b) names with dots, spaces, back-quotes, capitals, reserved words for tables / columns / aliases,
+# (c) non-ASCII and case-variant integration / project names; the generic model's `norm` op.
+
+def qn(name, rng=None):
+    """a name as it has to be written in SQL: back-quoted unless it is a plain lower-case word (capitalised plain words
+    are quoted at random)"""
+    plain = re.fullmatch(r'[A-Za-z_][A-Za-z0-9_]*', name) is not None and name.lower() not in _RESERVED
+    if plain and (name == name.lower() or rng is None or rng.random() < 0.5):
+        return name
+    return '`%s`' % name.replace('`', '``')
+
+
+_RESERVED = {'order', 'select', 'group', 'by', 'from', 'where', 'table', 'first', 'last', 'view', 'status', 'model'}
+
+ODD_SCHEMA = {
+    'int1': {'my.tab': ['id', 'a.b', 'x y', 'Up', 'se`q', 'order', 'tick`'],
+             'T Able': ['id', 'a.b', 'Mixed.Case', 'x', '`lead'],
+             't': ['id', 'x', 'y']},
+    'int2': {'o.2': ['id', 'a', 'b.c'], 'T2 x': ['id', 'a.b', 'B']},
+}
+ODD_ALIASES = ['al.ias', 'A B', 'Tab', 'q`t', 'select', 'x.y.z', 'a1']
+
+
+class OddGen:
+    """selects over tables / columns / aliases whose names contain dots, spaces, back-quotes, capitals or are reserved
+    words: whatever identifier the planner MAKES for such a name (the alias that keeps a column name, the table
+    identifier without its qualifier, per-table selects of the join planner) has to keep the name as ONE part.
+    Column names are always written exactly as declared (engines differ on whose spelling names a result column)."""
+
+    def __init__(self, rng, dbs=('int1',), spell_db=None):
+        self.rng, self.dbs = rng, list(dbs)
+        self.spell_db = spell_db or (lambda db: db)
+        self.used = set()
+        self.features = set()
+
+    def tref(self, db=None, alias=None):
+        rng = self.rng
+        db = db or rng.choice(self.dbs)
+        table = rng.choice(sorted(ODD_SCHEMA[db]))
+        if alias is None and rng.random() < 0.55:
+            alias = rng.choice([a for a in ODD_ALIASES if a.lower() not in self.used] or [None])
+        if alias:
+            self.used.add(alias.lower())
+        q = self.spell_db(db)
+        sql = '%s.%s' % (q, qn(table, rng)) + (' AS %s' % qn(alias) if alias else '')
+        return dict(sql=sql, db=db, q=q, table=table, alias=alias, exposed=alias or table, cols=ODD_SCHEMA[db][table])
+
+    def col(self, tr, c=None, style=None):
+        rng = self.rng
+        c = c or rng.choice(tr['cols'])
+        style = style or rng.choice(['bare', 'tab', 'tab', 'full'])
+        if style == 'full' and tr['alias'] is None:
+            return '%s.%s.%s' % (tr['q'], qn(tr['table'], rng), qn(c))
+        if style == 'bare':
+            return qn(c)
+        return '%s.%s' % (qn(tr['exposed'], rng), qn(c))
+
+    def select(self, two=False):
+        rng = self.rng
+        a = self.tref(db=self.dbs[0])
+        shape = rng.choice(['plain', 'plain', 'alias', 'join', 'derived', 'in-sub', 'union', 'cte', 'star'])
+        self.features.add('odd/' + shape)
+        odd = lambda tr: [c for c in tr['cols'] if c != 'id']
+        if shape in ('plain', 'alias', 'star'):
+            cs = rng.sample(odd(a), min(len(odd(a)), rng.choice([1, 2, 2, 3])))
+            tg = [self.col(a, c) for c in cs]
+            if shape == 'alias':
+                tg = ['%s AS %s' % (t, qn(rng.choice(['out.col', 'Out Col', 'o`c', 'Z']))) if i == 0 else t for i, t in enumerate(tg)]
+            if shape == 'star':
+                tg = [rng.choice(['*', '%s.*' % qn(a['exposed'], rng)])]
+            sql = 'SELECT %s FROM %s' % (', '.join(tg), a['sql'])
+            if rng.random() < 0.5:
+                sql += ' WHERE %s > 0' % self.col(a, rng.choice(odd(a)))
+            if rng.random() < 0.5:
+                sql += ' ORDER BY %s' % self.col(a, 'id')
+            return sql
+        if shape == 'join':
+            b = self.tref(db=self.dbs[-1] if two else self.dbs[0], alias=rng.choice([x for x in ODD_ALIASES if x.lower() not in self.used]))
+            if a['alias'] is None and a['table'] == b['table']:
+                a = self.tref(db=a['db'], alias='a1' if 'a1' not in self.used else 'Tab')
+            tg = [self.col(a, rng.choice(odd(a)), 'tab'), self.col(b, rng.choice(odd(b)), 'tab')]
+            sql = 'SELECT %s FROM %s JOIN %s ON %s = %s' % (', '.join(tg), a['sql'], b['sql'], self.col(a, 'id', 'tab'), self.col(b, 'id', 'tab'))
+            if rng.random() < 0.4:
+                sql += ' WHERE %s > 0' % self.col(a, rng.choice(odd(a)), 'tab')
+            return sql
+        if shape == 'derived':
+            c = rng.choice(odd(a))
+            al = qn(rng.choice(['s', 'S q', 'd.t']))
+            return 'SELECT %s.%s FROM (SELECT %s, %s FROM %s) AS %s WHERE %s.%s > 0 ORDER BY %s.id' % (
+                al, qn(c), self.col(a, c), self.col(a, 'id'), a['sql'], al, al, qn(c), al)
+        if shape == 'in-sub':
+            b = self.tref(db=self.dbs[-1] if two else self.dbs[0])
+            return 'SELECT %s FROM %s WHERE %s IN (SELECT %s FROM %s) ORDER BY %s' % (
+                self.col(a, rng.choice(odd(a))), a['sql'], self.col(a, 'id'), self.col(b, 'id', 'bare'), b['sql'], self.col(a, 'id'))
+        if shape == 'union':
+            b = self.tref(db=self.dbs[-1] if two else self.dbs[0], alias=False)
+            ca = rng.choice(odd(a))
+            cb = ca if ca in b['cols'] else rng.choice(odd(b))
+            return 'SELECT %s FROM %s UNION SELECT %s FROM %s' % (self.col(a, ca), a['sql'], self.col(b, cb, 'bare'), b['sql'])
+        c = rng.choice(odd(a))
+        w = qn(rng.choice(['w', 'W c', 'c.te']))
+        return 'WITH %s AS (SELECT %s, %s FROM %s) SELECT %s FROM %s' % (w, self.col(a, c), self.col(a, 'id'), a['sql'], qn(c), w)
+
+
+# ---- (a) hidden sub-queries
+# value positions: {S} = the foreign sub-query, {c} = a column of the home tables
+HIDDEN_VALUE = [
+    ('udf', '{udf}({c}, {S})'), ('udf-only', '{udf}({S})'), ('llm', 'llm({S})'), ('udf-nested', '{udf}(abs({S}))'),
+    ('fn-in-udf-in-fn', 'abs({udf}({c}, coalesce({S}, 0)))'),
+    ('fn', 'coalesce({S}, {c})'), ('fn-nested', 'abs(coalesce({S}, 0))'),
+    ('case-operand', 'CASE {S} WHEN 1 THEN 1 ELSE 0 END'), ('case-when', 'CASE WHEN {S} > 1 THEN {c} ELSE 0 END'),
+    ('case-then', 'CASE WHEN {c} > 1 THEN {S} ELSE 0 END'), ('case-else', 'CASE WHEN {c} > 1 THEN 0 ELSE {S} END'),
+    ('cast', 'CAST({S} AS int)'), ('cast-in-udf', '{udf}(CAST({S} AS int))'),
+    ('window-arg', 'sum({S}) OVER (PARTITION BY {c})'), ('window-partition', 'sum({c}) OVER (PARTITION BY {S})'),
+    ('window-order', 'sum({c}) OVER (ORDER BY {S})'),
+    ('binop', '{c} + {S}'), ('unary', '-{S}'), ('from-arg', 'substring({c} FROM {S})'),
+]
+# predicate positions
+HIDDEN_PRED = [
+    ('between', '{c} BETWEEN 0 AND {S}'), ('in-tuple', '{c} IN (1, {S})'), ('not', 'NOT {c} > {S}'),
+    ('is-null', '{S} IS NULL'), ('in-sub', '{c} IN {S1}'), ('exists', 'EXISTS {SE}'), ('and-or', '({c} > 0 OR {c} < {S}) AND {c} IS NOT NULL'),
+]
+HIDDEN_SITES = ['table', 'join1', 'join2', 'join-model', 'derived', 'derived-join1', 'cte', 'union', 'where-sub', 'insert', 'create']
+
+
+def hidden_statements(rng, cat, clauses=('target', 'where'), sites=None, positions=None):
+    """statements in which a sub-query on ANOTHER integration (int2) or on a MODEL is nested at an expression position
+    inside a query on int1, for every (position, clause) x every place where the planner decides what to send whole
+    -> list of (sql, kind, features)"""
+    out = []
+    sp = cat.spec()
+    models = [(p, n) for p, n in sp['models'] if '.' not in n]
+    udfs = ['myproj.fn', 'MyProj.Fn', 'proj.calc', 'mindsdb.f2']
+    for site in (sites or HIDDEN_SITES):
+        if site == 'join-model' and not models:
+            continue
+        if site == 'cte' and cat.dns is None:
+            continue
+        for clause in clauses:
+            plist = HIDDEN_VALUE + (HIDDEN_PRED if clause in ('where', 'having') else [])
+            if clause != 'target':
+                plist = [x for x in plist if not x[0].startswith('window')]      # window functions: select list only
+            for pname, tmpl in plist:
+                if positions is not None and pname not in positions:
+                    continue
+                g = QGen(rng, cat, adversarial=0.0)
+                a = g.tref(db='int1', force_alias=True)
+                b = g.tref(db='int2' if site == 'join2' else 'int1', force_alias=True)
+                kind_f = 'model' if (models and rng.random() < 0.4) else 'table'
+                if kind_f == 'model':
+                    proj, n = rng.choice(models)
+                    ref = '%s.%s' % (spell(rng, proj.lower()), rng.choice([n, n.upper()])) + rng.choice(['', '', '.3'])
+                    S = '(SELECT p FROM %s WHERE z = 1)' % ref
+                    S1 = '(SELECT p FROM %s WHERE z = 2)' % ref
+                    SE = '(SELECT p FROM %s WHERE z = 3)' % ref
+                else:
+                    f = g.tref(db='int2', force_alias=True)
+                    fc = rng.choice(f['cols'])
+                    S = '(SELECT max(%s) FROM %s)' % (g.col(f, fc, 'tab'), f['sql'])
+                    S1 = '(SELECT %s FROM %s)' % (g.col(f, fc, 'tab'), f['sql'])
+                    SE = '(SELECT 1 FROM %s WHERE %s = %s)' % (f['sql'], g.col(f, 'id', 'tab'), g.col(a, 'id', 'tab'))
+                c = g.col(a, None, 'tab')
+                e = tmpl.format(udf=rng.choice(udfs), c=c, S=S, S1=S1, SE=SE)
+                is_pred = (pname, tmpl) in HIDDEN_PRED
+                tg, where, tail = g.col(a, 'id', 'tab'), '', ''
+                if clause == 'target':
+                    tg = '%s AS h1' % e
+                    if rng.random() < 0.3:
+                        where = ' WHERE %s > 0' % c
+                elif clause == 'where':
+                    where = ' WHERE %s' % (e if is_pred else '%s > 1' % e)
+                elif clause == 'having':
+                    tail = ' GROUP BY %s HAVING %s' % (tg, e if is_pred else '%s > 1' % e)
+                elif clause == 'order':
+                    tail = ' ORDER BY %s' % e
+                elif clause == 'group':
+                    tail = ' GROUP BY %s' % e
+                frm = a['sql']
+                if site in ('join1', 'join2', 'derived-join1'):
+                    frm = '%s JOIN %s ON %s = %s' % (a['sql'], b['sql'], g.col(a, 'id', 'tab'), g.col(b, 'id', 'tab'))
+                elif site == 'join-model':
+                    proj, n = rng.choice(models)
+                    frm = '%s JOIN %s.%s AS mj' % (a['sql'], spell(rng, proj.lower()), n)
+                core = 'SELECT %s FROM %s%s%s' % (tg, frm, where, tail)
+                kind = 'select'
+                if site in ('derived', 'derived-join1'):
+                    sql = 'SELECT * FROM (%s) AS dq' % core
+                elif site == 'cte':
+                    sql = 'WITH hc AS (%s) SELECT * FROM hc' % core
+                elif site == 'union':
+                    sql = 'SELECT %s FROM %s UNION %s' % (g.col(b, 'id', 'tab'), b['sql'], core)
+                elif site == 'where-sub':
+                    o = g.tref(db='int2', force_alias=True)
+                    sql = 'SELECT * FROM %s WHERE %s IN (%s)' % (o['sql'], g.col(o, 'id', 'tab'), core)
+                elif site == 'insert':
+                    o = g.tref(db='int2', alias=False)
+                    sql, kind = 'INSERT INTO %s (id) %s' % (o['sql'], core), 'insert'
+                elif site == 'create':
+                    sql, kind = 'CREATE TABLE %s.newt (%s)' % (spell(rng, 'int2'), core), 'create'
+                else:
+                    sql = core
+                out.append((sql, kind, ['hidden/site=%s' % site, 'hidden/pos=%s' % pname, 'hidden/clause=%s' % clause,
+                                        'hidden/foreign=%s' % kind_f]))
+    return out
+
+
+def real_plan_join(cat, query):
+    """`PlanJoin.check_single_integration` of the real planner on a copy of a select whose FROM is a join, and the
+    identifiers of the query it would send (`PlanJoin.plan`: prepare_integration_select on the query itself)"""
+    from mindsdb_sql.planner.plan_join import PlanJoin
+    q = copy.deepcopy(query)
+    p = planner_for(cat)
+    try:
+        name = PlanJoin(p).check_single_integration(q)
+    except Exception as e:
+        return dict(single=None if exc_class(e) == 'planningError' else ('EXC', exc_class(e)), idents=None)
+    if not name:
+        return dict(single=None, idents=None)
+    p.prepare_integration_select(name, q)
+    return dict(single=name, idents=idents_of(q))
+
+
+# ---- (c) non-ASCII / case-variant database names
+# lower() != casefold(): Straße, Λόγος, ﬁle, ŉame; lower() != ASCII lower: Ärger, Çay, Ǆak (a digraph with a title case); length changes: İzmir
+NONASCII_NAMES = ['Stra\u00dfe', '\u039b\u03cc\u03b3\u03bf\u03c2', '\u00c4rger', '\ufb01le', '\u00c7ay', '\u0130zmir', 'Gr\u00f6\u00dfe', '\u0149ame', '\u01c4ak']      # Straße Λόγος Ärger ﬁle Çay İzmir Größe ŉame Ǆak
+
+
+def case_variant(rng, name):
+    """another spelling of `name` that Python's `str.lower` maps to the same string"""
+    out = []
+    for ch in name:
+        alts = [x for x in (ch, ch.upper(), ch.lower(), ch.swapcase()) if len(x) == 1 and x != 'Σ']
+        out.append(rng.choice(alts) if rng.random() < 0.6 else ch)
+    v = ''.join(out)
+    return v if v.lower() == name.lower() else name
+
+
+def rename_dbs(rng, sql, mapping):
+    """replace the database names int1 / int2 / proj of a generated statement, whatever their spelling, by case variants
+    of the mapped (non-ASCII) names, back-quoted"""
+    def repl(m):
+        new = mapping.get(m.group(1).lower())
+        if new is None:
+            return m.group(0)
+        return '`%s`' % case_variant(rng, new)
+    return re.sub(r'`?\b(%s)\b`?' % '|'.join(mapping), repl, sql, flags=re.I)
+
+
+def rename_cat(rng, cat, mapping):
+    mp = lambda n: case_variant(rng, mapping[n.lower()]) if isinstance(n, str) and n.lower() in mapping else n
+    ints = None if cat.ints is None else [(it[0], mp(it[1])) + tuple(it[2:]) for it in cat.ints]
+    pm = None if cat.pm is None else (cat.pm[0], [(n, mp(i)) for n, i in cat.pm[1]])
+    return Cat(ints, mp(cat.pns), pm, mp(cat.dns), cat.extras)
+
+
+def char_table(*texts):
+    """Python's `str.lower`, character by character, for every non-ASCII character of the texts (the generators avoid
+    the one context-sensitive case, capital sigma)"""
+    chars = sorted({ch for t in texts for ch in t if ord(ch) > 127})
+    return [[ord(ch), [ord(x) for x in ch.lower()]] for ch in chars]
+
+
+def cat_texts(cat):
+    out = []
+    for it in cat.ints or []:
+        out.append(it[1])
+    out += [x for x in (cat.pns, cat.dns) if isinstance(x, str)]
+    if cat.pm is not None:
+        for n, i in cat.pm[1]:
+            out += [n] + ([i] if i else [])
+    return out
+
+
+def norm_line(cat, ast, sql):
+    return json.dumps(dict(op='norm', tbl=char_table(sql, *cat_texts(cat)), cat=cat.model(),
+                           ctes=[enc(x) for x in cte_names(ast)], names=[enc(x) for x in local_names(ast)], node=abstract(ast)))
+
+
+def norm_compare(cat, ast, sql, o):
+    """the real planner against the generic model instantiated with Python's `str.lower` at every site -> why | None"""
+    A = _ast()
+    ctx = dict(sql=sql, catalog=cat.kwargs())
+    real_c, mod_c = real_catalog(cat), model_catalog(o)
+    if json.dumps(real_c, sort_keys=True) != json.dumps(mod_c, sort_keys=True):
+        return dict(ctx, field='catalog', impl=real_c, model=mod_c)
+    real = real_plan_top(cat, ast)
+    m = o['info']
+    minfo = None if m is None else dict(mdb=m['mdb'], ints=sorted(dec(x) for x in m['ints']), preds=m['preds'], udf=m['udf'])
+    if real['info'] != minfo and not isinstance(real['info'], tuple):
+        return dict(ctx, field='query_info', impl=real['info'], model=minfo)
+    msingle = None if o['single'] is None else dec(o['single'])
+    if real['single'] != msingle and not isinstance(real['single'], tuple):
+        return dict(ctx, field='check_single_integration', impl=real['single'], model=msingle)
+    if msingle is not None and real['idents'] != model_idents(o['idents']):
+        return dict(ctx, field='stripped-identifiers', impl=real['idents'], model=model_idents(o['idents']))
+    if isinstance(ast, A.Select) and isinstance(ast.from_table, A.Join):
+        rj = real_plan_join(cat, ast)
+        mj = None if o['singleJoin'] is None else dec(o['singleJoin'])
+        if rj['single'] != mj and not isinstance(rj['single'], tuple):
+            return dict(ctx, field='PlanJoin.check_single_integration', impl=rj['single'], model=mj)
+        if mj is not None and rj['idents'] != model_idents(o['identsJoin']):
+            return dict(ctx, field='stripped-identifiers (join site)', impl=rj['idents'], model=model_idents(o['identsJoin']))
+    return None
+
+
+def join_site_compare(cat, ast, sql, o):
+    """the join planner's own pushdown site against the model (`plan` op, live variant) -> why | None"""
+    A = _ast()
+    if not (isinstance(ast, A.Select) and isinstance(ast.from_table, A.Join)):
+        return None
+    rj = real_plan_join(cat, ast)
+    mj = None if o['singleJoinN'] is None else dec(o['singleJoinN'])
+    ctx = dict(sql=sql, catalog=cat.kwargs())
+    if rj['single'] != mj and not isinstance(rj['single'], tuple):
+        return dict(ctx, field='PlanJoin.check_single_integration', impl=rj['single'], model=mj)
+    if mj is not None and rj['idents'] != model_idents(o['identsJoinNA']):
+        return dict(ctx, field='stripped-identifiers (join site)', impl=rj['idents'], model=model_idents(o['identsJoinNA']))
+    return None
+
+
+def pathstr_cases(rng, n=40):
+    """names without back-quotes for the `pathstr` op (model `pathParts` vs `path_str_to_parts`)"""
+    out = ['a.b', 'a', 'a..b', '.a', 'a.', 'x y.z', 'A.b.C', 'ab', '..', 'a. b']
+    while len(out) < n:
+        out.append(''.join(rng.choice('ab.X y_1') for _ in range(rng.randint(1, 7))))
+    return [x for x in out if x.strip('.') != '' or True]
